@@ -10,7 +10,8 @@ R13.4 (semantic store inventory + inlined helper summary) no index type => INDEX
       index type => INDEX-MIN from min(), INDEX-MAX from max() (not crossed); spacing only on the "uniform" result,
       direction only otherwise; the sign mapping is consistent.
 R13.5 (inlined helper summary) differences are taken in a type that cannot wrap: integer index data are widened before np.diff.
-R13.6 (inlined helper summary) the uniformity test is purely relative (no absolute tolerance that swallows small-step indexes).
+R13.6 (inlined helper summary) the uniformity test is purely relative (no absolute tolerance that swallows small-step indexes)
+      and looks at all differences (not at a slice, a single element or one extreme of them).
 """
 
 from __future__ import annotations
